@@ -181,12 +181,19 @@ func run(r *core.R) {
 	r.FaultDecl("feed_reorder", "feed_duplicate", "feed_delay", "feed_flap")
 	r.ProbeDecl("reinsert_before_sweep", "insert_existing_member", "insert_after_emptied_unswept", "remove_absent_member",
 		"lookup_forces_sweep", "lookup_empty_ring", "lookup_emptied_ring", "len_changed", "colliding_hash", "multi_probe",
-		"nodes_disagree_midrun", "final_set_empty", "final_set_multi")
+		"nodes_disagree_midrun", "final_set_empty", "final_set_multi", "large_cluster")
 	s := &sim{r: r}
 
 	// ---- swarm configuration
 	nNodes := r.Src.Range(2, 5, "nodes")
 	universe := r.Src.Range(1, 10, "universe")
+	// large-cluster profile: behaviour that depends on the ring's size (thresholds, amortised sweeps) needs
+	// more members than the default universe holds, and a member set that stays nearly full so that single
+	// removals from a big ring are common
+	large := r.Src.Chance(400, "large_cluster")
+	if large {
+		universe = r.Src.Range(11, 40, "universe_large")
+	}
 	replicas := []int{1, 2, 3, 7, 100}[r.Src.Weighted([]int{3, 2, 2, 2, 4}, "replicas")]
 	probes := []int{1, 2, 5, 21}[r.Src.Weighted([]int{5, 2, 2, 1}, "probes")]
 	hashMode := r.Src.Weighted([]int{5, 2, 2, 1}, "hash")
@@ -210,6 +217,9 @@ func run(r *core.R) {
 		r.Probe("multi_probe")
 	}
 	nHist := r.Src.Range(3, 60, "history_len")
+	if large {
+		nHist += universe
+	}
 	lookupW := r.Src.Range(1, 8, "lookup_weight")
 	pDup := r.Src.Intn(120, "p_dup")
 	pFlap := r.Src.Intn(120, "p_flap")
@@ -218,6 +228,9 @@ func run(r *core.R) {
 	s.optsDesc = fmt.Sprintf("replicas=%d probes=%d hash=%s", replicas, probes, hashName)
 	r.Cfg("nodes", nNodes)
 	r.Cfg("universe", universe)
+	if large {
+		r.Probe("large_cluster")
+	}
 	r.Cfg("replicas", replicas)
 	r.Cfg("probes", probes)
 	r.Cfg("hash", hashName)
@@ -236,6 +249,9 @@ func run(r *core.R) {
 		}
 	}
 	nKeys := r.Src.Range(8, 48, "nkeys")
+	if large {
+		nKeys = r.Src.Range(200, 1200, "nkeys_large")
+	}
 	for i := 0; i < nKeys; i++ {
 		switch i % 4 {
 		case 0, 1:
@@ -265,6 +281,18 @@ func run(r *core.R) {
 		switch act {
 		case 0: // the cluster changes
 			name := names[r.Src.Intn(universe, "member")]
+			if large && (published < universe || r.Src.Chance(600, "large_prefers_add")) {
+				// fill the cluster first, then keep it nearly full (names may repeat: tricky names)
+				var absent []string
+				for _, nm := range names {
+					if !present[nm] {
+						absent = append(absent, nm)
+					}
+				}
+				if len(absent) > 0 {
+					name = absent[r.Src.Intn(len(absent), "member_absent")]
+				}
+			}
 			add := !present[name]
 			if r.Src.Chance(120, "redundant_event") {
 				add = !add // metadata refresh of a present host / removal of an unknown one
